@@ -841,6 +841,11 @@ fn gen_xlsx(rng: &mut Rng, s: &str, pfx: &str) -> XlsxCase {
             kids.push(en(&vname));
         }
         let label = form_label("str", if with_f { "formula" } else { "nof" }, pfx, &kids, "");
+        if with_f {
+            // the same cell seen through worksheet_formula: the text of <f>
+            let fl = form_label("formula_text", "f", pfx, &kids[..kids.iter().position(|e| matches!(e, X::End(_))).unwrap()], "");
+            cells.push(CellCase { t: Some("str^f".into()), kids: kids.clone(), expect: Some("A1&\"<x>\"".into()), label: fl });
+        }
         cells.push(CellCase { t: Some("str".into()), kids, expect: Some(s.to_string()), label });
     }
     XlsxCase { pfx: pfx.to_string(), sst, cells }
@@ -852,7 +857,8 @@ fn xlsx_sheet_data(c: &XlsxCase) -> String {
     for (i, cell) in c.cells.iter().enumerate() {
         o.push_str(&format!("<{} r=\"{}\"><{} r=\"A{}\"", q(p, "row"), i + 1, q(p, "c"), i + 1));
         if let Some(t) = &cell.t {
-            o.push_str(&format!(" t=\"{t}\""));
+            // `str^f`: a t="str" cell observed through worksheet_formula (its formula text)
+            o.push_str(&format!(" t=\"{}\"", t.split('^').next().unwrap()));
         }
         o.push('>');
         o.push_str(&xml(&cell.kids));
@@ -1246,10 +1252,28 @@ fn run_case_inner(case: &Case, drv: &mut Driver, rep: &mut Stats) -> Outcome {
             let file_hash = verif_harness::fnv64(&bytes);
             rep.add("bytes.xlsx", bytes.len() as u64);
             let t_imp = std::time::Instant::now();
-            let imp = column(c.cells.len(), || {
+            let want_f = c.cells.iter().any(|x| x.t.as_deref() == Some("str^f"));
+            let bytes2 = if want_f { bytes.clone() } else { vec![] };
+            let mut imp = column(c.cells.len(), || {
                 let mut wb: Xlsx<_> = Xlsx::new(Cursor::new(bytes)).map_err(|e| format!("open: {e:?}"))?;
                 wb.worksheet_range("S").map_err(|e| format!("range: {e:?}"))
             });
+            if want_f {
+                let n = c.cells.len();
+                let fcol: Vec<String> = match guarded(|| -> Result<calamine::Range<String>, String> {
+                    let mut wb: Xlsx<_> = Xlsx::new(Cursor::new(bytes2)).map_err(|e| format!("open: {e:?}"))?;
+                    wb.worksheet_formula("S").map_err(|e| format!("formula: {e:?}"))
+                }) {
+                    Ok(Ok(r)) => (0..n).map(|i| format!("S:{}", hx(r.get_value((i as u32, 0)).map(|s| s.as_bytes()).unwrap_or(b"")))).collect(),
+                    Ok(Err(e)) => vec![format!("err:{}", clip(&e)); n],
+                    Err(p) => vec![format!("panic:{}", clip(&p)); n],
+                };
+                for (i, cell) in c.cells.iter().enumerate() {
+                    if cell.t.as_deref() == Some("str^f") {
+                        imp[i] = fcol[i].clone();
+                    }
+                }
+            }
             rep.add("time_us.impl", t_imp.elapsed().as_micros() as u64);
             // model: the table first (the workbook does not open when it fails), then every cell
             let (table, table_err): (Vec<String>, Option<String>) = if c.sst.is_empty() {
@@ -1266,6 +1290,10 @@ fn run_case_inner(case: &Case, drv: &mut Driver, rep: &mut Stats) -> Outcome {
             let cname = hx(q(&c.pfx, "c").as_bytes());
             let mut reqs = vec![];
             for cell in &c.cells {
+                if cell.t.as_deref() == Some("str^f") {
+                    reqs.push(format!("fmla {} E{}", wire(&cell.kids), cname));
+                    continue;
+                }
                 let arg = if small || cell.t.as_deref() != Some("s") { &table_arg } else { "" };
                 if arg.is_empty() && cell.t.as_deref() == Some("s") {
                     reqs.push(String::new());
@@ -1599,6 +1627,12 @@ fn corpus() -> Vec<Case> {
                 label: "xlsx.inline.plain.cdata".into(),
             },
             CellCase { t: Some("str".into()), kids: cd("", "v"), expect: Some("prea<b&cpost".into()), label: "xlsx.str.nof.cdata".into() },
+            CellCase {
+                t: Some("str^f".into()),
+                kids: vec![st("f", &[]), tx("IF(A1"), X::CData("<".into()), tx("2,\"a\",\"b\")"), en("f"), st("v", &[]), tx("a"), en("v")],
+                expect: Some("IF(A1<2,\"a\",\"b\")".into()),
+                label: "xlsx.formula_text.f.cdata".into(),
+            },
         ],
     }));
     v.push(Case::Ods(OdsCase {
